@@ -593,6 +593,8 @@ pub struct Profile {
     pub old_timers: bool,
     pub raw_data: bool,
     pub mangle: bool,
+    /// weight (against 20) of datagrams that end in a zero-length custom item (`00 00` + 0..3 junk bytes)
+    pub empty_items: u32,
     pub set_config: bool,
     pub illegal_config: bool,
     pub packet_resize: bool,
@@ -622,6 +624,7 @@ impl Default for Profile {
             old_timers: false,
             raw_data: false,
             mangle: false,
+            empty_items: 0,
             set_config: true,
             illegal_config: false,
             packet_resize: false,
@@ -758,7 +761,13 @@ pub fn data_spec(p: &Profile) -> BoxedStrategy<DataSpec> {
         6 => proptest::collection::vec(member_spec(p), 0..5).prop_map(Some),
     ];
     let items = if p.items { proptest::collection::vec(item_spec(), 0..3).boxed() } else { Just(Vec::new()).boxed() };
-    let mg = if p.mangle { prop_oneof![5 => Just(Mangle::None), 2 => mangle()].boxed() } else { Just(Mangle::None).boxed() };
+    let mg = if p.mangle {
+        prop_oneof![5 => Just(Mangle::None), 2 => mangle()].boxed()
+    } else if p.empty_items > 0 {
+        prop_oneof![20 => Just(Mangle::None), p.empty_items => any::<u8>().prop_map(Mangle::EmptyItem)].boxed()
+    } else {
+        Just(Mangle::None).boxed()
+    };
     (src, inc_sel(p), dst, msg_sel(p), members, items, mg)
         .prop_map(|(src, inc, dst, msg, members, items, mangle)| {
             // kinds that never carry a member section are built without one (a valid peer never sends one)
